@@ -101,6 +101,7 @@ pub fn jobs(id: &str, thorough: bool) -> Vec<Job> {
             for k in ["pending-completepart", "succeeded", "pending-pendingpart"] {
                 v.push(w(scen::s_hist(k, 0, false), p, if thorough { 3 } else { 2 }, false));
             }
+            v.push(w(scen::s_two_hashes(), p, if thorough { 3 } else { 2 }, true));
         }
         "C02" => v = life_jobs(&["C02"], thorough, true),
         "C05" => v = life_jobs(&["C05"], thorough, false),
@@ -148,8 +149,9 @@ pub fn jobs(id: &str, thorough: bool) -> Vec<Job> {
             }
         }
         "C10" => {
-            for c in scen::s_classify(thorough) {
-                v.push(w(c, &["C10"], 0, false));
+            // the full product is cheap (about 3 200 worlds, 2 s): both tiers run it; thorough adds one deviation
+            for c in scen::s_classify(true) {
+                v.push(w(c, &["C10"], if thorough { 1 } else { 0 }, false));
             }
         }
         "C11" => {
